@@ -225,7 +225,8 @@ def merge(results: list[dict]) -> dict:
 
 
 def write_evidence(prop, tier, seed, level, merged, rule, assumptions, wall, nviol, known_hits, verdict):
-    os.makedirs(os.path.join(ROOT, 'evidence'), exist_ok=True)
+    evdir = os.environ.get('VERIF_EVIDENCE_DIR') or os.path.join(ROOT, 'evidence')  # sensitivity runs on a broken copy write elsewhere
+    os.makedirs(evdir, exist_ok=True)
     cov = {
         'evaluations': merged['evaluations'],
         'distinct_nontrivial': len(merged['distinct']),
@@ -251,7 +252,7 @@ def write_evidence(prop, tier, seed, level, merged, rule, assumptions, wall, nvi
         'wall_s': round(wall, 2),
         'violations': nviol,
     }
-    path = os.path.join(ROOT, 'evidence', f'{prop}.json')
+    path = os.path.join(evdir, f'{prop}.json')
     with open(path + '.tmp', 'w') as f:
         json.dump(ev, f, indent=1, default=jdefault, sort_keys=True)
     os.replace(path + '.tmp', path)
